@@ -178,9 +178,87 @@ def _const_arg(call: ast.Call, pos: int, kw: str) -> str:
     raise NCError(f"matrix name is not a literal in `{unparse(call)}`")
 
 
+def _is_diagonal_builder(tree: Tree, qual: str) -> bool:
+    """zeros(n, n) filled only at [i, i] (one index variable) and returned."""
+    fn = tree.funcs.get(qual)
+    if fn is None:
+        return False
+    stores = [n for n in ast.walk(fn.node) if isinstance(n, ast.Subscript) and isinstance(n.ctx, ast.Store)]
+    if not stores:
+        return False
+    for st in stores:
+        sl = st.slice
+        if not (isinstance(sl, ast.Tuple) and len(sl.elts) == 2 and all(isinstance(e, ast.Name) for e in sl.elts) and sl.elts[0].id == sl.elts[1].id):
+            return False
+    inits = [n for n in ast.walk(fn.node) if isinstance(n, ast.Call) and tree.resolve(fn.module, n.func, fn) == "sympy.zeros"]
+    return len(inits) == 1
+
+
+def _mul_div_factors(node: ast.AST, sign: int = 1) -> list[tuple[ast.AST, int]]:
+    if isinstance(node, ast.BinOp) and isinstance(node.op, ast.Mult):
+        return _mul_div_factors(node.left, sign) + _mul_div_factors(node.right, sign)
+    if isinstance(node, ast.BinOp) and isinstance(node.op, ast.Div):
+        return _mul_div_factors(node.left, sign) + _mul_div_factors(node.right, -sign)
+    return [(node, sign)]
+
+
 class NCEval:
     def __init__(self, tree: Tree) -> None:
         self.tree = tree
+        self.diagonal: set = set()
+
+    def is_diagonal(self, v: "NC") -> bool:
+        items = v.items()
+        if len(items) != 1:
+            return False
+        for f in items[0][1]:
+            if f in self.diagonal:
+                continue
+            if f[0] in {"sqrt", "conj", "inv"}:
+                inner = _REGISTRY.get(f[1])
+                if inner is not None and self.is_diagonal(inner):
+                    continue
+            return False
+        return True
+
+    def elementwise(self, node: ast.Call, env, fn) -> "NC":
+        """sp.Matrix(n, n, lambda i, j: X[i, j] * A[i, i] / B[j, j] ...) with A, B diagonal
+        == A · X · B^-1  (a diagonal factor indexed by the row scales from the left, one indexed
+        by the column from the right)."""
+        lam = node.args[2]
+        if not (isinstance(lam, ast.Lambda) and len(lam.args.args) == 2 and unparse(node.args[0]) == unparse(node.args[1])):
+            raise NCError(f"element-wise matrix `{unparse(node)[:60]}` is not square / not a two-index lambda")
+        i, j = (a.arg for a in lam.args.args)
+        left, right, full = [], [], []
+        coeff = NC.eye()
+        for fac, sign in _mul_div_factors(lam.body):
+            if isinstance(fac, ast.Subscript) and isinstance(fac.value, ast.Name) and isinstance(fac.slice, ast.Tuple) and len(fac.slice.elts) == 2:
+                idx = tuple(e.id if isinstance(e, ast.Name) else None for e in fac.slice.elts)
+                m = self._nc(self.ev(fac.value, env, fn))
+                if idx == (i, j):
+                    if sign != 1:
+                        raise NCError("division by a full matrix element")
+                    full.append(m)
+                    continue
+                if idx in {(i, i), (j, j)}:
+                    if not self.is_diagonal(m):
+                        raise NCError(f"`{unparse(fac)}`: element [k, k] of a matrix that is not known to be diagonal")
+                    (left if idx == (i, i) else right).append(m if sign == 1 else m.inv())
+                    continue
+                raise NCError(f"element `{unparse(fac)}` is neither [{i}, {j}] nor a diagonal element")
+            v = self._nc(self.ev(fac, env, fn))
+            if any(f for _, f in v.items()):
+                raise NCError(f"factor `{unparse(fac)[:40]}` of an element-wise product is a matrix")
+            coeff = coeff * (v if sign == 1 else v.inv())
+        if len(full) != 1:
+            raise NCError(f"element-wise product with {len(full)} full-matrix factors")
+        out = coeff
+        for m in sorted(left, key=lambda x: repr(x.key())):
+            out = out * m
+        out = out * full[0]
+        for m in sorted(right, key=lambda x: repr(x.key())):
+            out = out * m
+        return out
 
     def run(self, fn: FuncInfo, flags: dict[str, bool]) -> list:
         """Evaluate a straight-line ``_create_matrices`` body; ``if <flag>:`` on a boolean
@@ -231,6 +309,8 @@ class NCEval:
             tgt = self.tree.resolve(fn.module, node, fn)
             if tgt == "sympy.I":
                 return NC.scalar(RF.atom("I"))
+            if node.attr in {"T", "H"} and not (isinstance(node.value, ast.Name) and node.value.id not in env):
+                return nc_func("transpose" if node.attr == "T" else "adjoint", self._nc(self.ev(node.value, env, fn)))
             raise NCError(f"attribute `{unparse(node)}`")
         if isinstance(node, ast.UnaryOp) and isinstance(node.op, ast.USub):
             return -self._nc(self.ev(node.operand, env, fn))
@@ -264,7 +344,12 @@ class NCEval:
                     raise NCError(f"matrix method .{f.attr}()")
             callee = self.tree.resolve(fn.module, f, fn)
             if callee in MATRIX_SOURCES:
-                return NC.sym(MATRIX_SOURCES[callee](node))
+                m = NC.sym(MATRIX_SOURCES[callee](node))
+                if _is_diagonal_builder(self.tree, callee):
+                    self.diagonal.add(m.items()[0][1][0])
+                return m
+            if callee in {"sympy.Matrix", "sympy.ImmutableMatrix", "sympy.MutableDenseMatrix"} and len(node.args) == 3:
+                return self.elementwise(node, env, fn)
             if callee == "sympy.eye":
                 return NC.eye()
             if callee == "sympy.sqrt":
